@@ -20,15 +20,15 @@ const modPath = "github.com/syndtr/goleveldb/"
 
 // Prog is the loaded, type-checked, SSA-built program plus lazily built call graph.
 type Prog struct {
-	Fset  *token.FileSet
-	Pkgs  []*packages.Package
-	SSA   *ssa.Program
-	ByRel map[string]*ssa.Package // "leveldb", "leveldb/table", ...
-	PPkg  map[string]*packages.Package
-	cg    *callgraph.Graph
-	chaCG *callgraph.Graph
-	Dir   string
-	GOOS  string
+	Fset   *token.FileSet
+	Pkgs   []*packages.Package
+	SSA    *ssa.Program
+	ByRel  map[string]*ssa.Package // "leveldb", "leveldb/table", ...
+	PPkg   map[string]*packages.Package
+	cg     *callgraph.Graph
+	chaCG  *callgraph.Graph
+	Dir    string
+	GOOS   string
 	GOARCH string
 
 	allFns map[*ssa.Function]bool
